@@ -1,7 +1,7 @@
 #!/usr/bin/env python3
 """Re-run the seeded changes of /verif/seeded: for each one apply the patch to /repo's working tree, run the repo's
 suite, the demonstration and the property's quick check, and undo the patch (git checkout -- .).
-    python3 harness/seeded_eval.py [C01 C02 ...]
+    python3 harness/seeded_eval.py [--record] [--only=r4] [C01 C02 ...]
 /repo must be clean when this starts; nothing is ever committed there.  Results: out/seeded_results.json"""
 import json
 import os
@@ -19,13 +19,14 @@ def sh(cmd, cwd=None, timeout=3600):
 
 
 def main():
+    only = next((a.split("=", 1)[1] for a in sys.argv[1:] if a.startswith("--only=")), "")
     ids = [a for a in sys.argv[1:] if not a.startswith("--")] or sorted(d for d in os.listdir(SEEDED) if re.fullmatch(r"C\d\d", d))
     res = {}
     for pid in ids:
         for k in sorted(os.listdir(os.path.join(SEEDED, pid))):
             md = os.path.join(SEEDED, pid, k)
             patch = os.path.join(md, "patch.diff")
-            if not os.path.exists(patch):
+            if not os.path.exists(patch) or not k.startswith(only):
                 continue
             rc, out = sh("git status --short", cwd="/repo")
             if out.strip():
